@@ -15,14 +15,14 @@ RULE = ('one generated spec is built (1) as a hand-written spied chart, (2) with
         'the sibling states; all builds are started in the same state and driven with the same event script; per step the ground-truth '
         'action log (entries, exits, inits, reactions, guard evaluations) and the rest state must be identical, and equal to the reference '
         'model. Specs include states without registered entry/exit/init, guard callbacks that decline, init callbacks that transition. '
-        'In every third case a share of the callbacks are bound methods of a DELEGATE object (not of the chart), which the template calls with the event only. In every second case a SECOND template chart that shares the first chart\'s state names but has a different design (nesting, '
+        'Every fourth case registers (adds or replaces) 1-4 reactions with register_signal_callback AFTER the chart has already run events and compares with a hand-written chart whose reactions change at that moment. In every third case a share of the callbacks are bound methods of a DELEGATE object (not of the chart), which the template calls with the event only. In every second case a SECOND template chart that shares the first chart\'s state names but has a different design (nesting, '
         'reactions, callbacks) is assembled after the first and is alive while the first runs; it is then driven itself and must follow '
         'its own design (reference model) - whatever one chart registers belongs to that chart only. '
         'distinct_nontrivial = distinct (build, states, transitions, declines) tuples')
 CASES = {'quick': 2500, 'thorough': 100000}
 BUDGET = {'quick': 150, 'thorough': 300}
-REQUIRE = {'template_builds': 1000, 'to_code_builds': 1000, 'factory_builds': 50, 'steps_compared': 20000, 'declines': 200,
-           'decoy_charts_alive_with_shared_state_names': 500, 'template_builds_with_delegate_callbacks': 300}
+REQUIRE = {'template_builds': 800, 'to_code_builds': 800, 'factory_builds': 50, 'steps_compared': 20000, 'declines': 200,
+           'decoy_charts_alive_with_shared_state_names': 500, 'template_builds_with_delegate_callbacks': 150, 'late_registration_cases': 300}
 ASSUME = ['signal and state names are Python identifiers (to_code emits signals.NAME and def NAME)']
 
 
@@ -116,23 +116,26 @@ def build_template(chart, spec, cbs, fns, factory=None):
       chart.register_parent(fns[names[i]], chart.top if p is None else fns[names[p]])
 
 
-def relevant(spec, log):
+def relevant(spec, log, table=None):
+  table = spec['react'] if table is None else table
   idx = {nm: i for i, nm in enumerate(spec['names'])}
   out = []
   for r in log:
     if r[0] in ('entry', 'exit', 'init', 'guard'):
       out.append(tuple(r))
-    elif r[0] == 'offer' and '%d:%s' % (idx[r[1]], r[2]) in spec['react']:
+    elif r[0] == 'offer' and '%d:%s' % (idx[r[1]], r[2]) in table:
       out.append(tuple(r))
   return out
 
 
-def drive_sync(chart, start_fn, script, log, tick_reset):
-  """HsmWithQueues: post + next_rtc; returns [(log, rest)] for start and each step"""
+def drive_sync(chart, start_fn, script, log, tick_reset, hooks=None):
+  """HsmWithQueues: post + next_rtc; returns [(log, rest)] for start and each step; hooks[k] runs before step k"""
   out = []
   chart.start_at(start_fn)
   out.append((list(log), chart.state_name))
-  for sn in script:
+  for k, sn in enumerate(script):
+    if hooks and k in hooks:
+      hooks[k]()
     del log[:]
     tick_reset()
     chart.post_fifo(Event(signal=sn))
@@ -141,7 +144,87 @@ def drive_sync(chart, start_fn, script, log, tick_reset):
   return out
 
 
+def late_registration_case(ctx, n):
+  """reactions are registered (added or replaced) with register_signal_callback AFTER the chart has already run events - the
+  use the repository calls 'adding event handling after the state was written'; from then on the template chart must behave like
+  a hand-written chart whose reactions changed at that moment"""
+  rng = ctx.rng('late', n)
+  spec = cg.gen_spec(rng, nmax=rng.choice([3, 6, 10]), name_style='plain', p_clause=0.85, nsig=rng.randint(2, 4))
+  spec['sigs'] = spec['sigs'][:-1] + ['ZZ']
+  names = spec['names']
+  start = rng.randrange(spec['n'])
+  script = cg.gen_script(rng, spec, rng.randint(8, 30), p_unknown=0.02)
+  k0 = rng.randint(2, max(2, len(script) - 3))
+  react_a = dict(spec['react'])
+  changes = {}
+  for _ in range(rng.randint(1, 4)):
+    i, sg = rng.randrange(spec['n']), rng.choice(spec['sigs'][:-1])
+    changes['%d:%s' % (i, sg)] = rng.choice([{'k': 'H'}, {'k': 'T', 't': rng.randrange(spec['n'])}, {'k': 'G', 't': rng.choice([None, rng.randrange(spec['n'])]), 'm': 2}])
+  wit = {'spec_before': dict(spec, react=react_a), 'start': start, 'script': script, 'reactions_registered_before_step': k0, 'registered': changes}
+  # ---- hand-written chart whose reactions change before step k0, and the reference model
+  spec['react'] = dict(react_a)
+  run = cg.Run(spec, spied=True)
+  c1 = cg.counted_host(HsmWithQueues, run)()
+  try:
+    ref = drive_sync(c1, run.fns[start], script, run.log, run.reset_logs, hooks={k0: lambda: spec['react'].update(changes)})
+  except cg.Budget:
+    ctx.count('other_property_disagreements')
+    return
+  spec['react'] = dict(react_a)
+  react_b = dict(react_a, **changes)
+  table_at = lambda j: react_a if j == 0 or (j - 1) < k0 else react_b       # j = 0 is start_at, j >= 1 is script step j-1
+  m = cg.Model(spec)
+  exp = [relevant(spec, m.start(start), react_a)]
+  for k, sn in enumerate(script):
+    if k == k0:
+      spec['react'].update(changes)
+    exp.append(relevant(spec, m.dispatch(sn)[0], table_at(k + 1)))
+  ref = [(relevant(spec, lg, table_at(j)), rest) for j, (lg, rest) in enumerate(ref)]
+  if [r[0] for r in ref] != exp:
+    ctx.count('other_property_disagreements')
+    return
+  # ---- template chart: same callbacks, the changed reactions registered before step k0
+  spec['react'] = dict(react_a)
+  log2, fns2, cnt2 = [], {}, [0]
+  cbs2 = make_callbacks(spec, log2, fns2, cnt2)
+  budget = [0]
+
+  class Counted(HsmWithQueues):
+    def top(self, *a):
+      budget[0] += 1
+      if budget[0] > 20000:
+        raise cg.Budget()
+      return HsmWithQueues.top(self, *a)
+  c2 = Counted()
+  build_template(c2, spec, cbs2, fns2)
+
+  def register_late():
+    mini = dict(spec, react=dict(changes), clauses=[[False, False, False]] * spec['n'])
+    for (i, sg), cb in make_callbacks(mini, log2, fns2, cnt2).items():
+      c2.register_signal_callback(fns2[names[i]], getattr(signals, sg), cb)
+    spec['react'].update(changes)         # ('relevant' reads the table)
+  ctx.count('late_registration_cases')
+  try:
+    got = drive_sync(c2, fns2[names[start]], script, log2, lambda: budget.__setitem__(0, 0), hooks={k0: register_late})
+  except cg.Budget:
+    ctx.violation('C17/template-does-not-terminate', 'template build exceeded the step budget after reactions were registered on the running chart', wit)
+    return
+  except Exception as ex:
+    ctx.violation('C17/template-raises', 'template build raised %s: %s after reactions were registered on the running chart' % (type(ex).__name__, ex), wit)
+    return
+  got = [(relevant(spec, lg, table_at(j)), rest) for j, (lg, rest) in enumerate(got)]
+  ctx.count('steps_compared', len(got))
+  ctx.distinct(('late', spec['n'], len(changes), k0))
+  for k, ((lg, rest), (elg, erest)) in enumerate(zip(got, ref)):
+    if lg != elg or rest != erest:
+      ctx.violation('C17/template-differs-from-hand-written', 'template chart, step %d (%s; reactions %r were registered on the running chart before step %d): log %r rest %s; hand-written chart: %r rest %s' % (
+        k - 1, script[k - 1] if k else 'start_at', sorted(changes), k0, lg, rest, elg, erest), dict(wit, failing_step=k - 1))
+      return
+
+
 def run_case(ctx, n):
+  if n % 4 == 2:
+    return late_registration_case(ctx, n)
   rng = ctx.rng('case', n)
   spec = cg.gen_spec(rng, nmax=rng.choice([3, 6, 10]), name_style=rng.choice(cg.NAME_STYLES), p_clause=rng.choice([0.5, 0.85]),
                      nsig=rng.randint(2, 5))
